@@ -1,7 +1,7 @@
 (* C17, scanner half for template bodies: the steps of the state machine around command tags that the
    expression layer (LexExpr/LexPrint) and the text layer (LexBodySeg/LexBodyCmd) do not have yet:
    a keyword open tag "{kw", a close tag "{/kw}", "/}" followed by more input, a double-quoted attribute
-   string, and lexText on a stretch of text without "/" up to the next tag or the end of the input. *)
+   string, and lexText on a stretch of text without comment opener up to the next tag or the end of the input. *)
 From Soy Require Import Model.Bytes Model.Utf8 Model.Outcome Model.Token Generated.Tables Model.Lexer Spec.Text Spec.TextBody
   Proofs.Utf8Proofs Proofs.LexerPrim Proofs.LexerStates Proofs.LexTokens Proofs.LexStrings Proofs.LexExpr
   Proofs.LexBodyText Proofs.LexBodySeg Proofs.LexBodyCmd.
@@ -48,6 +48,14 @@ Proof.
   - inversion Hns as [|? ? Hc Hr]; subst. assert (E : (c =? 47)%N = false) by lia. rewrite E.
     rewrite (IH (ws c) (c :: cur) Hr). cbn [rev]. rewrite <- app_assoc. reflexivity.
 Qed.
+
+(* a text that lexText reads as ONE piece whatever precedes it: no comment opener ("/*", or "//" at its start or
+   behind white space) in it *)
+Definition lb17_one_piece (T : bstr) : Prop := forall pw, pieces MText pw [] T = Some [T].
+Lemma lb17_one_piece_noslash T : Forall (fun c => c <> 47%N) T -> lb17_one_piece T.
+Proof. intros H pw. exact (lb17_pieces_noslash T pw [] H). Qed.
+Lemma lb17_one_piece_nil : lb17_one_piece [].
+Proof. intros pw. reflexivity. Qed.
 
 Section Steps17.
 Variable uni_letter uni_digit : Z -> bool.
@@ -180,15 +188,15 @@ Proof.
   exists 2%nat, l'. auto.
 Qed.
 
-(* ---------- lexText on a stretch without "/" (possibly empty), up to the next tag or the end ---------- *)
-Lemma lb17_text_run l T tl : span l [] (T ++ tl) -> plain T -> Forall (fun c => c <> 47%N) T -> tag_or_end tl ->
+(* ---------- lexText on a stretch without comment opener (possibly empty), up to the next tag or the end ---------- *)
+Lemma lb17_text_run l T tl : span l [] (T ++ tl) -> plain T -> lb17_one_piece T -> tag_or_end tl ->
   exists st' l', steps 1 LText l = Ok (st', l') /\ plain_result inp l T tl st' l'.
 Proof.
   intros Hs Hpl Hns Htl.
   assert (Hf : (length (T ++ tl) < loop_fuel ilen l)%nat).
   { pose proof (span_bounds _ _ _ _ Hs) as (Hb & Hl). unfold loop_fuel. lia. }
   destruct (text_plain_run inp (length T) T (le_n _) [] l 0 (loop_fuel ilen l) T tl Hs Hf Hpl Htl
-              (fun _ => eq_refl) ltac:(intros E; congruence) ltac:(cbn [rev]; apply lb17_pieces_noslash; exact Hns))
+              (fun _ => eq_refl) ltac:(intros E; congruence) ltac:(cbn [rev]; apply Hns))
     as (st' & l' & Hrun & _ & Hres).
   exists st', l'. split; [apply steps_one; exact Hrun|exact Hres].
 Qed.
@@ -199,7 +207,7 @@ Lemma lb17_text_tag l tl : span l [] (123%N :: tl) ->
     l_last l' = l_last l /\ l_dd l' = l_dd l.
 Proof.
   intros Hs.
-  destruct (lb17_text_run l [] (123%N :: tl) Hs ltac:(constructor) ltac:(constructor) ltac:(right; eexists; reflexivity))
+  destruct (lb17_text_run l [] (123%N :: tl) Hs ltac:(constructor) lb17_one_piece_nil ltac:(right; eexists; reflexivity))
     as (st' & l' & Hrun & (txt & Htx & Hdd & Hres)).
   unfold is_text_of in Htx. cbn [droppable] in Htx. subst txt.
   destruct Hres as [(A & _)|(_ & -> & Ho & Hs' & Hla)]; [discriminate A|].
